@@ -36,7 +36,7 @@ REQUIRED = {"requests": 2000, "not_offered_requests": 800, "offered_accepted": 1
 
 
 def plan(tier, seed):
-    n = 200 if tier == "quick" else 4000
+    n = 128 if tier == "quick" else 4000
     shards = 16 if tier == "quick" else 50
     return [{"seed": seed * 1000003 + i, "n": max(1, n // shards), "max_depth": 3 if tier == "quick" else 4,
              "p_off": 0.6 if tier == "quick" else 1.0, "p_not": 0.12 if tier == "quick" else 0.35}
